@@ -445,14 +445,7 @@ def frac_of_q(q):
 
 
 def model_close(agg, got, mod, n, scale, dtype, dest="edge"):
-    """implementation value vs exact model value (std: model gives the variance).  destination='face': the code
-    stores into an np.empty float64 buffer, i.e. the exact value rounded to the nearest double"""
-    if dest == "face" and agg != "std" and isinstance(got, float):
-        try:
-            if float(mod) == got:
-                return True
-        except OverflowError:
-            pass
+    """implementation value vs exact model value (std: model gives the variance)"""
     return value_ok(agg, got, mod, n, scale, dtype)
 
 
@@ -637,68 +630,15 @@ def main(ck):
                     ck.corr_failures.append({"case": c["table"], "what": "dispatch", "source_dest": key, "impl": got, "model": want})
                 n_corr += 1
             else:
-                d = c["data"]
-                name_code = dict(zip(d["dims"], dims_code(d["dims"])))
-                name_code.update({"n_face": 2, "n_edge": 1})
+                # node dimension not last: the model raises ValueError; an implementation that raises (any type) agrees
                 for agg in NOTLAST_AGGS:
                     got = res["collect"].get((key, agg))
-                    if got is None or isinstance(got, str) or got[2]:
-                        continue               # raised / returned the correct result: allowed by the property
-                    if [name_code.get(x) for x in got[0]] != mo[1] or list(got[1].shape) != mo[2]:
-                        ck.corr_failures.append({"case": c["table"], "what": "notlast dims/shape",
-                                                 "impl": [got[0], list(got[1].shape)], "model": [mo[1], mo[2]]})
-                    n_corr += 1
-        # node dimension not last, values: the faithful model indexes the LAST axis with node indices, exactly
-        # like the code: IndexError <-> None, otherwise the same (mislabelled) numbers
-        nl_lines, nl_owner = [], []
-        for ci, (c, res) in enumerate(zip(cases, results)):
-            if res is None or c["mode"] != "notlast":
-                continue
-            arr = make_array(c["data"])
-            for agg in NOTLAST_AGGS:
-                nl_lines.append("(%d %s %s)" % (AGGS.index(agg), sx(c["table"]), data_sx(arr)))
-                nl_owner.append((ci, agg))
-        if nl_lines:
-            nf_, ne_ = ck.run_model("c17face", nl_lines), ck.run_model("c17edge", nl_lines)
-            for (ci, agg), m_face, m_edge in zip(nl_owner, nf_, ne_):
-                c, res = cases[ci], results[ci]
-                arr = make_array(c["data"])
-                rows = [[Fraction(x) for x in r] for r in arr.reshape(-1, arr.shape[-1]).tolist()]
-                scales = [max([abs(x) for x in r] or [Fraction(0)]) for r in rows]
-                faces = [[x for x in r if x != FILL] for r in c["table"]]
-                for dest, mv in (("face", m_face), ("edge", m_edge[1])):
-                    got = res["collect"].get((dest, agg))
                     if got is None:
                         continue
                     n_corr += 1
-                    if isinstance(got, str) or got[2]:
-                        continue               # raised / returned the correct result: allowed by the property
-                    if mv is None:
-                        ck.corr_failures.append({"case": c["table"], "what": "notlast: impl returns wrong numbers, model IndexError",
-                                                 "shape": c["data"]["shape"], "dest": dest})
-                        continue
-                    if dest == "face":
-                        M = [[frac_of_q(q) for q in row] for row in mv]
-                        ns = [len(f) for f in faces]
-                    else:
-                        medges = [tuple(e) for e in m_edge[0]]
-                        mpos = {e: i for i, e in enumerate(medges)}
-                        M = [[frac_of_q(row[mpos[tuple(sorted(en))]]) for en in res["edges"]] for row in mv]
-                        ns = [2] * len(res["edges"])
-                    G = np.asarray(got[1]).reshape(-1, len(ns)) if len(ns) else None
-                    bad = None
-                    if G is None or G.shape[0] != len(M):
-                        bad = "shape"
-                    else:
-                        for l, mrow in enumerate(M):
-                            for e, mq in enumerate(mrow):
-                                if not model_close(agg, G[l][e].item(), mq, ns[e], scales[l], c["data"]["dtype"]):
-                                    bad = "row %d elem %d impl %r model %s" % (l, e, G[l][e].item(), float(mq))
-                                    break
-                            if bad:
-                                break
-                    if bad:
-                        ck.corr_failures.append({"case": c["table"], "what": "notlast values: " + bad, "dest": dest, "agg": agg})
+                    if (mo[0] == "run") != (not isinstance(got, str)):
+                        ck.corr_failures.append({"case": c["table"], "what": "notlast dispatch", "dims": c["data"]["dims"],
+                                                 "impl": got if isinstance(got, str) else "returns", "model": mo[0]})
     # ---- extraction audit: the same model evaluated by the kernel (vm_compute) on a sample -----
     audit_n = 0
     if ok:
@@ -719,8 +659,6 @@ def main(ck):
                                    "Definition c17_pq (q : Q) := (Qnum q, Z.pos (Qden q)).\n"
                                    "Definition c17_pf (r : option (list (list (option Q)))) := match r with Some rows => map (map (fun c => match c with Some q => c17_pq q | None => (0, 0) end)) rows | None => [] end.\n"
                                    "Definition c17_pe (r : option (list (list Q))) := match r with Some rows => map (map c17_pq) rows | None => [] end.")
-            if os.environ.get("VERIF_DEBUG"):
-                open("/tmp/agC17/audit.out", "w").write("\n".join(lines) + "\n=====\n" + out)
             if rc != 0:
                 ck.proof["errors"].append("in-kernel audit failed: " + out[-800:])
             else:
@@ -738,8 +676,6 @@ def main(ck):
                     if nums != flat:
                         ck.proof["errors"].append("extraction audit mismatch: kernel %s vs extracted %s" % (nums[:12], flat[:12]))
                     audit_n += 1
-    if os.environ.get("VERIF_DEBUG"):
-        json.dump(ck.corr_failures, open("/tmp/agC17/corr.json", "w"), indent=1, default=str)
     ck.extra.update({
         "case_kinds": hist, "case_modes": mode_hist, "face_size_histogram": {str(k): v for k, v in sorted(sizes.items())},
         "data_classes": dt_hist, "data_rank_histogram": {str(k): v for k, v in sorted(rank_hist.items())},
@@ -752,7 +688,7 @@ def main(ck):
         "clauses_checked_on_impl": ["raises", "type", "grid", "dims", "shape", "value", "error_path"],
         "partial": "the reductions themselves are NumPy's (parameter of the theorems); std is compared as sqrt of the "
                    "exact variance; float rounding inside the tolerance above; dtype of the result is not part of the "
-                   "property (face results are always float64 in the implementation)"})
+                   "property (since fix 997ba86d both destinations return the dtype the reduction produces)"})
     ck.trusted += ["NumPy primitives modelled by documented semantics: argsort (any valid argsort, proved), "
                    "unique(return_counts) = run lengths of the sorted values, cumsum, concatenate, basic/fancy "
                    "indexing of the last axis incl. negative wrap-around and IndexError, item assignment",
